@@ -1218,6 +1218,8 @@ fn exec_while(song: &mut Song, t: &Token) -> bool {
                 song.get_message(MessageKind::LoopTooManyTimes),
                 song.flags.max_loop
             ));
+            // a BREAK / CONTINUE of the last pass belongs to this loop: do not let it leak out
+            if song.flags.break_flag == 1 || song.flags.break_flag == 2 { song.flags.break_flag = 0; }
             break;
         }
         // check break flag
@@ -1274,6 +1276,8 @@ fn exec_for(song: &mut Song, t: &Token) -> bool {
                 song.get_message(MessageKind::LoopTooManyTimes),
                 song.flags.max_loop
             ));
+            // a BREAK / CONTINUE of the last pass belongs to this loop: do not let it leak out
+            if song.flags.break_flag == 1 || song.flags.break_flag == 2 { song.flags.break_flag = 0; }
             break;
         }
         // inc
